@@ -18,6 +18,7 @@ the number of satisfying joined tuples and reports which relations the filter's 
 join plan (pivot relations, reachability => all-rows fallback) is computed by the model itself from the
 source schema.  The same evaluator (with its own planner) gives the direct oracle its `kept` flags.
 """
+import contextlib
 import gzip as gzip_mod
 import io
 import json
@@ -121,6 +122,31 @@ def n_xform(row, old_fields, new_fields):
             v = n_default(f)
         out.append(v if v != "" else None)
     return out
+
+
+# ------------------------------------------------------------------ text input: the characters of the stream
+
+def raw_text(case):
+    """the characters of the sentence stream: lines with their terminators ("terms": one per line, '' allowed
+    for the last; older cases: `\\n` between lines and `trailing_nl`)"""
+    lines = [uncps(l) for l in case["lines"]]
+    if case.get("terms") is not None:
+        return "".join(l + t for l, t in zip(lines, case["terms"]))
+    text = "\n".join(lines)
+    if lines and (case["trailing_nl"] or not lines[-1]):
+        text += "\n"          # (a final empty line exists only if it is terminated)
+    return text
+
+
+def n_stream_lines(raw, is_file):
+    """naive re-statement of what 'a line' is: a sentence FILE is a text file (\\r\\n, \\r and \\n end a line),
+    a stream handed in as stdin is cut at \\n only; a final unterminated piece is a line unless empty"""
+    if is_file:
+        raw = re.sub("\r\n?", "\n", raw)
+    parts = raw.split("\n")
+    if parts[-1] == "":
+        parts.pop()
+    return parts
 
 
 # ------------------------------------------------------------------ conditions
@@ -366,7 +392,7 @@ BASE = {
 REL_ORDER = ["item", "analysis", "phenomenon", "parameter", "set", "item-phenomenon", "item-set", "run", "parse",
              "result", "edge", "tree", "fold", "output"]
 STRS = ["a", "b", "a b", "the dog barks", "x", "", "a@b", "back\\slash", "two\nlines", "é ü", "\U0001F600", " lead",
-        "trail ", "*star", "-1", "1", "a  b", "\\s", "\\n@"]
+        "trail ", "*star", "-1", "1", "a  b", "\\s", "\\n@", "c\rd", "e\r\nf", "g\x0ch\u2028i"]
 PATTERNS = ["a", "^a", "b$", ".", "x|b", "^$", "dog", "\\d", " "]
 
 
@@ -543,7 +569,7 @@ def gen_cond(rng, schema, depth=0):
     return ["cmp", op, col, rng.choice(["a", "b", "a b", "x", "the dog barks", "é ü", "1"])]
 
 
-WORDS = ["the", "dog", "barks", "a", "*", "cat", "é", "x@y", "b\\c", "1", "-", "it's"]
+WORDS = ["the", "dog", "barks", "a", "*", "cat", "é", "x@y", "b\\c", "1", "-", "it's", "end\\"]
 SPACES = [" ", " ", " ", "  ", "\t", " ", " ", "\x0c", "\x1f", "　", "\x0b"]
 
 
@@ -622,8 +648,28 @@ def gen_lines_case(rng):
                 vals = vals[:-1] if rng.random() < 0.5 else vals + ["more"]
             lines.append(delim.join(vals))
     lines = [l.replace("\r", " ").replace("\n", " ") for l in lines]
+    terms = None
+    q = rng.random()
+    if q < 0.45 and lines:
+        # newline conventions: CRLF / CR / LF files (also mixed), a last line without terminator, a lone CR or
+        # another 'line boundary' character inside a line (must not cut it, except CR in a file)
+        style = rng.choice(["crlf", "cr", "mixed", "lf"])
+        terms = [{"crlf": "\r\n", "cr": "\r", "lf": "\n"}.get(style) or rng.choice(["\n", "\r\n", "\r", "\n"])
+                 for _ in lines]
+        if rng.random() < 0.35:
+            terms[-1] = ""
+        if rng.random() < 0.3:
+            k = rng.randrange(len(lines))
+            ch = rng.choice(["\r", "\x0c", "\x1c", "\x85", "\u2028", "\x0b", "\x00"])
+            pos = rng.randrange(len(lines[k]) + 1)
+            lines[k] = lines[k][:pos] + ch + lines[k][pos:]
+        for k in range(len(lines) - 1):
+            # a lone CR followed by a line starting with LF would be CRLF: keep the case unambiguous
+            if terms[k] == "\r" and lines[k + 1][:1] == "\n":
+                terms[k] = "\n"
     return {"kind": "lines", "schema": schema_arg, "delim": None if delim is None else cps(delim),
-            "lines": [cps(l) for l in lines], "stdin": rng.random() < 0.2, "trailing_nl": rng.random() < 0.8,
+            "lines": [cps(l) for l in lines], "terms": terms,
+            "stdin": rng.random() < 0.25, "trailing_nl": rng.random() < 0.8,
             "gzip": rng.random() < 0.3, "skeleton": rng.random() < 0.3,
             "dst": gen_stale_dst(rng, schema) if rng.random() < 0.15 else None}
 
@@ -681,6 +727,101 @@ def gen_refresh_case(rng):
     if rng.random() < 0.03:
         d = dict(d, schema=None)
     return {"kind": "refresh", "dst": d, "schema": alt, "gzip": rng.random() < 0.4, "skeleton": rng.random() < 0.25}
+
+
+def gen_history_case(rng):
+    """2-4 mkprof calls on one destination directory: copies from one source profile (with/without filter and new
+    schema), in-place refreshes (schema / gzip changes), text input; calls that raise are followed by normal ones"""
+    schema = gen_schema(rng, big=False)
+    src = gen_dir(rng, schema, both=0.08, missing=0.1, dup=rng.choice([0.0, 0.0, 0.25]))
+    steps = []
+    for _ in range(rng.choice([2, 2, 3, 3, 4])):
+        r = rng.random()
+        if r < 0.4:
+            where = None
+            if rng.random() < 0.35:
+                c = gen_cond(rng, schema)
+                if cond_composable(c):
+                    where = {"cond": c}
+            steps.append({"kind": "db", "schema": gen_alt_schema(rng, schema) if rng.random() < 0.35 else None,
+                          "where": where, "full": rng.random() < 0.6, "gzip": rng.random() < 0.4,
+                          "skeleton": rng.random() < 0.25})
+        elif r < 0.78:
+            steps.append({"kind": "refresh", "schema": gen_alt_schema(rng, schema) if rng.random() < 0.45 else None,
+                          "gzip": rng.random() < 0.5, "skeleton": rng.random() < 0.2})
+        else:
+            lc = gen_lines_case(rng)
+            steps.append({k: lc[k] for k in ("kind", "schema", "delim", "lines", "terms", "stdin", "trailing_nl",
+                                             "gzip", "skeleton")})
+    return {"kind": "history", "src": src, "dst": gen_stale_dst(rng, schema) if rng.random() < 0.3 else None,
+            "steps": steps, "gzip": False, "skeleton": False}
+
+
+def enumerated_plumbing():
+    """quiet=False on every call path x gzip (the summary runs after the clean-up), and a source that is neither a
+    file nor a directory"""
+    item = [F("i-id", ":integer", ":key"), F("i-input", ":string"), F("i-wf", ":integer"), F("i-length", ":integer")]
+    fold = [F("f-note", ":string")]
+    schema = [{"name": "item", "fields": item}, {"name": "fold", "fields": fold}]
+    d = {"schema": schema, "files": [
+        {"name": "item", "tx": gen_file([["1", "a", "1", "1"], ["2", "b c", "0", "2"]], 1), "gz": None},
+        {"name": "fold", "tx": None, "gz": gen_file([["note"]], 1)}]}
+    for gz in (False, True):
+        for sk in (False, True):
+            yield {"kind": "db", "src": d, "dst": None, "schema": None, "where": None, "full": True, "gzip": gz,
+                   "skeleton": sk, "quiet": False}
+            yield {"kind": "refresh", "dst": d, "schema": None, "gzip": gz, "skeleton": sk, "quiet": False}
+            for stdin in (False, True):
+                yield {"kind": "lines", "schema": schema, "delim": None, "lines": [cps("the dog"), cps("*x")],
+                       "terms": None, "stdin": stdin, "trailing_nl": True, "gzip": gz, "skeleton": sk, "dst": None,
+                       "quiet": False}
+    for quiet in (True, False):
+        yield {"kind": "lines", "schema": schema, "delim": None, "lines": [cps("the dog")], "terms": None,
+               "stdin": False, "trailing_nl": True, "gzip": False, "skeleton": False, "dst": None, "quiet": quiet,
+               "nosource": True}
+    yield {"kind": "lines", "schema": schema, "delim": cps("@"), "lines": [cps("i-input@i-comment"), cps("a\\")],
+           "terms": None, "stdin": False, "trailing_nl": True, "gzip": False, "skeleton": False, "dst": None}
+
+
+def enumerated_histories():
+    """deterministic histories: copy, then refresh with another schema and compression, then back; text input
+    followed by refresh and copy; calls that raise followed by normal calls; a second copy into the same directory
+    with a different schema"""
+    item = [F("i-id", ":integer", ":key"), F("i-input", ":string"), F("i-wf", ":integer"), F("i-length", ":integer")]
+    parse = [F("parse-id", ":integer", ":key"), F("i-id", ":integer", ":key"), F("readings", ":integer")]
+    fold = [F("f-note", ":string")]
+    schema = [{"name": "item", "fields": item}, {"name": "parse", "fields": parse}, {"name": "fold", "fields": fold}]
+    src = {"schema": schema, "files": [
+        {"name": "item", "tx": gen_file([["1", "a", "1", "1"], ["2", "b c", "0", "2"], ["3", None, "1", None]], 1), "gz": None},
+        {"name": "parse", "tx": None, "gz": gen_file([["10", "1", "2"], ["20", "2", "0"], ["30", "3", "1"]], 1)},
+        {"name": "fold", "tx": gen_file([["note"]], 1), "gz": None}]}
+    alt_add = [{"name": "item", "fields": item[:2] + [F("i-comment", ":string")] + item[2:]},
+               {"name": "parse", "fields": parse}, {"name": "fold", "fields": fold},
+               {"name": "run", "fields": BASE["run"]}]
+    alt_drop = [{"name": "item", "fields": [item[0], item[1]]}, {"name": "fold", "fields": fold}]
+
+    def db(schema=None, cond=None, full=True, gz=False, sk=False):
+        return {"kind": "db", "schema": schema, "where": None if cond is None else {"cond": cond}, "full": full,
+                "gzip": gz, "skeleton": sk}
+
+    def rf(schema=None, gz=False, sk=False):
+        return {"kind": "refresh", "schema": schema, "gzip": gz, "skeleton": sk}
+
+    def ln(lines, schema=schema, delim=None, gz=False, sk=False, stdin=False):
+        return {"kind": "lines", "schema": schema, "delim": None if delim is None else cps(delim),
+                "lines": [cps(l) for l in lines], "terms": None, "stdin": stdin, "trailing_nl": True, "gzip": gz,
+                "skeleton": sk}
+    hs = [
+        [db(), rf(alt_add, gz=True), rf(), db(cond=["cmp", ">", "i-id", 1], full=False, sk=True)],
+        [db(), rf(alt_drop), rf(schema), db(alt_add, gz=True), db()],
+        [db(alt_drop), db(), db(alt_add), db(alt_drop, gz=True)],
+        [ln(["the dog barks", "*it rains"]), rf(alt_add, gz=True), db(), ln(["x"], schema=alt_drop, gz=True)],
+        [rf(), ln(["a"]), ln(["i-id\ti-input", "5\tx", "5\ty"], delim="\t"), rf(gz=True), rf(alt_add)],
+        [db(gz=True), db(cond=["cmp", "==", "zzz", 1]), rf(alt_drop, sk=True), rf(schema)],
+        [db(full=False), db(sk=True), db(gz=True, sk=True), rf(alt_add), ln(["q"], schema=alt_add, stdin=True)],
+    ]
+    for steps in hs:
+        yield {"kind": "history", "src": src, "dst": None, "steps": steps, "gzip": False, "skeleton": False}
 
 
 def enumerated_cases():
@@ -790,6 +931,16 @@ def enumerated_cases():
             yield {"kind": "db", "src": src4, "dst": None, "schema": None, "where": None, "full": True, "gzip": gz,
                    "skeleton": skeleton}
             yield {"kind": "refresh", "dst": src4, "schema": None, "gzip": gz, "skeleton": skeleton}
+    # a core relation whose only row is one empty field (a 1-byte file) is not empty: a skeleton keeps it
+    src5 = {"schema": sch4, "files": [
+        {"name": "item", "tx": gen_file([[None]], 1), "gz": None},
+        {"name": "fold", "tx": gen_file([[None]], 1), "gz": None},
+        {"name": "set", "tx": gen_file([], 1), "gz": None}]}
+    for gz in (False, True):
+        for full in (False, True):
+            yield {"kind": "db", "src": src5, "dst": None, "schema": None, "where": None, "full": full, "gzip": gz,
+                   "skeleton": True}
+        yield {"kind": "refresh", "dst": src5, "schema": None, "gzip": gz, "skeleton": True}
     sch_l = [{"name": "item", "fields": item}, {"name": "parse", "fields": parse}]
     for lines in ([], ["the dog barks"], ["*dog the barks", "it  rains\t", "", "*"],
                   ["**two stars", "*** three", "* *", "**"]):
@@ -797,6 +948,28 @@ def enumerated_cases():
             for gz in (False, True):
                 yield {"kind": "lines", "schema": sch_l, "delim": None, "lines": [cps(l) for l in lines],
                        "stdin": False, "trailing_nl": True, "gzip": gz, "skeleton": skeleton, "dst": None}
+    # round 6: the characters of the stream.  The same sentences as LF / CRLF / CR / mixed text, with and without
+    # final terminator, as a file (opened by mkprof: universal newlines) and as stdin (taken as it is), x gzip x
+    # skeleton (every option on both call paths); other 'line boundary' characters inside a line never cut it
+    for terms in (["\n", "\n", "\n"], ["\r\n", "\r\n", "\r\n"], ["\r", "\r", "\r"], ["\r\n", "\n", ""],
+                  ["\n", "\r", ""], ["\r", "\r\n", "\r"]):
+        for stdin in (False, True):
+            for gz, skeleton in ((False, False), (True, False), (False, True), (True, True)):
+                yield {"kind": "lines", "schema": sch_l, "delim": None,
+                       "lines": [cps(l) for l in ("the dog barks", "*it  rains\t", "a@b \\ c")], "terms": terms,
+                       "stdin": stdin, "trailing_nl": True, "gzip": gz, "skeleton": skeleton, "dst": None}
+    for stdin in (False, True):
+        for ch in ("\x0b", "\x0c", "\x1c", "\x1d", "\x1e", "\x85", "\u2028", "\u2029", "\r", "\x00"):
+            yield {"kind": "lines", "schema": sch_l, "delim": None,
+                   "lines": [cps("one" + ch + "two"), cps(ch + "*x"), cps("*y " + ch)], "terms": ["\n", "\n", "\n"],
+                   "stdin": stdin, "trailing_nl": True, "gzip": False, "skeleton": False, "dst": None}
+        for delim, lines in (("@", ["i-input@i-comment", "a b@c", "d\\se@"]), ("\t", ["i-id\ti-input", "5\tx y", "6\tz"]),
+                             ("::", ["i-input::i-wf", "a b::0", "c::1"])):
+            for term in ("\r\n", "\r", "\n"):
+                for gz in (False, True):
+                    yield {"kind": "lines", "schema": sch_l, "delim": cps(delim), "lines": [cps(l) for l in lines],
+                           "terms": [term] * (len(lines) - 1) + [""], "stdin": stdin, "trailing_nl": True,
+                           "gzip": gz, "skeleton": False, "dst": None}
     for delim, lines in (("@", ["i-input@i-comment", "a b@c", "d\\se@"]), ("\t", ["i-id\ti-input", "5\tx y", "6\tz"]),
                          ("\t", ["i-id\ti-input", "5\tx y", "5\tz"]), ("|", ["i-input", "a|b"]),
                          ("@", []), ("@", ["i-input@", "a"]), ("::", ["i-input::i-wf", "a b::0", "c::1"])):
@@ -832,12 +1005,37 @@ ERRS = ("TSDBSchemaError", "TSDBError", "CommandError", "TypeError", "KeyError",
         "TSQLSyntaxError", "IndexError", "ValueError", "AttributeError")
 
 
+def step_cases(case):
+    """the calls of a history as single cases (source profile shared; the destination is what the previous
+    call left)"""
+    return [dict(st, src=case.get("src") if st["kind"] == "db" else None, dst=None) for st in case["steps"]]
+
+
+def synth_dir(obs, schema, planted):
+    """the destination as observed after a call, as a planted-directory description (input of the next call for
+    the oracle): one entry per existing file; a relation present in both forms can only be an untouched planted one"""
+    files = []
+    for r in obs["rels"]:
+        n = r["name"]
+        if not (r["tx"] or r["gz"]):
+            continue
+        if (r["tx"] and r["gz"]) or r["rows"] is None:
+            ent = planted.get(n) or {"name": n, "tx": {"rows": [], "mt": 1}, "gz": None}
+        else:
+            fl = {"rows": r["rows"], "mt": 1}
+            ent = {"name": n, "tx": fl if r["tx"] else None, "gz": fl if r["gz"] else None}
+        files.append(ent)
+    return {"schema": schema, "files": files}
+
+
 def watch_names(case):
     names = []
     for d in (case.get("src"), case.get("dst")):
         if d:
             names += [r["name"] for r in (d.get("schema") or [])] + [f["name"] for f in d["files"]]
     names += [r["name"] for r in (case.get("schema") or [])]
+    for st in case.get("steps") or []:
+        names += [r["name"] for r in (st.get("schema") or [])]
     names.append("item")
     return sorted(set(names))
 
@@ -984,8 +1182,8 @@ def rx_table(case):
 class C12(Check):
     pid = "C12"
     paths = {}
-    props_modules = ["Verif.C12.Props", "Verif.C12.ComposeProps"]
-    quick_cases = 2500
+    props_modules = ["Verif.C12.Props", "Verif.C12.ComposeProps", "Verif.C12.LinesProps"]
+    quick_cases = 2200
     thorough_cases = 30000
     rule = ("source profiles over tree-linked schemas drawn from 14 relations (item/parse/result/run/tree/edge, the "
             "core relations, a keyless one), 0-5 rows per relation, key values from a domain of 1-4 (one-to-many, "
@@ -993,7 +1191,10 @@ class C12(Check):
             "duplicate rows, missing files, both physical forms; filters: condition trees of depth <= 2 over "
             "integer/string columns incl. qualified, undefined and mistyped columns; target schemas by column/"
             "relation add/drop/reorder/retype/reflag; full x skeleton x gzip; refresh in place; text input plain "
-            "(with '*', Unicode blanks) and delimited (@, tab, |, multi-character) with header. A case is "
+            "(with '*', Unicode blanks) and delimited (@, tab, |, multi-character) with header, as the CHARACTERS of a "
+            "file or stdin stream (LF / CRLF / CR / mixed terminators, last line unterminated, other line-boundary "
+            "characters inside a line); histories of 2-5 mkprof calls (copy / refresh / text input, changing schema, "
+            "gzip, skeleton; calls that raise followed by normal ones) on one destination directory. A case is "
             "non-trivial if some relation it touches has rows / some line is given; distinct by JSON text.")
     assumptions = [
         "db and refresh cases are answered by the COMPOSED model (lean/Verif/C12/Compose.lean): the filter is C11's "
@@ -1003,14 +1204,18 @@ class C12(Check):
         "outside the islands' models — malformed filter text; a well-typed comparison on a :float column or a date "
         "literal (C11 answers `unmodelled` / not shipped); a :date cell in a KEY or FILTER column whose text C08's "
         "parseDate does not model (free text like 'notadate'; other columns are never cast, as in the code) — see "
-        "coverage.model_paths in the evidence; text input is answered by the round-1 model (nothing is a parameter "
-        "there, but it is not composed with C09)",
+        "coverage.model_paths in the evidence; text input is answered by the composed model of ComposeLines.lean from "
+        "the characters of the stream (universal newlines for a file, the stream as it is for stdin; C08 escaping, "
+        "C09 files; nothing is a parameter); a history is answered by the composed model threading the directory "
+        "through the calls, or not compared when one of its calls is outside the composed model",
         "schemas are key-consistent (a column that is a key in one relation is a key wherever it occurs); relation "
         "and column names are TSQL identifiers without keyword prefixes and without '.'",
         "source files are written with well-formed escapes; integer key/condition columns hold int() spellings",
         "rows of the wrong width are generated only without a filter (correspondence only, no oracle clause)",
         "date-typed columns are copied as text; no date literals in generated filters",
         "source and destination directories are distinct (except refresh)",
+        "the sentence file is UTF-8 under a UTF-8 locale (mkprof opens it with the locale's encoding); stdin is an "
+        "io.StringIO taken as it presents itself (no newline translation)",
     ]
     trusted_base = ["hand-written model lean/Verif/C12/Model.lean, tied to delphin.commands.mkprof by the "
                     "correspondence run", "the harness's naive TSQL evaluator (naive_select) as model parameter",
@@ -1108,13 +1313,32 @@ class C12(Check):
     # ---- cases
     def cases(self, rng, tier, n):
         yield from enumerated_cases()
+        yield from enumerated_histories()
+        yield from enumerated_plumbing()
         yield from self.random_cases(rng, tier, n)
 
     def random_cases(self, rng, tier, n, kinds=None):
+        for c in self._random_cases(rng, tier, n, kinds):
+            # option plumbing: the summary printed for quiet=False reads the destination after the clean-up
+            if rng.random() < 0.15:
+                if c["kind"] == "history":
+                    for st in c["steps"]:
+                        st["quiet"] = rng.random() < 0.5
+                else:
+                    c["quiet"] = False
+            if c["kind"] == "lines" and c.get("dst") is None and rng.random() < 0.02:
+                c["nosource"] = True
+                c["stdin"] = False
+            yield c
+
+    def _random_cases(self, rng, tier, n, kinds=None):
         for _ in range(n):
             r = rng.random()
-            k = rng.choice(kinds) if kinds else ("db" if r < 0.6 else "refresh" if r < 0.78 else "lines")
-            if k == "db":
+            k = rng.choice(kinds) if kinds else (
+                "db" if r < 0.55 else "refresh" if r < 0.7 else "lines" if r < 0.9 else "history")
+            if k == "history":
+                yield gen_history_case(rng)
+            elif k == "db":
                 yield gen_db_case(rng, tier)
             elif k == "refresh":
                 yield gen_refresh_case(rng)
@@ -1136,81 +1360,106 @@ class C12(Check):
             dst = os.path.join(work, "dst")
             if case.get("dst") is not None:
                 plant(dst, case["dst"])
-            schema_arg = None
-            if case.get("schema") is not None:
-                schema_arg = os.path.join(work, "alt-relations")
-                with open(schema_arg, "w", encoding="utf-8") as f:
-                    f.write(n_schema_text(case["schema"]))
-            kw = dict(schema=schema_arg, gzip=case["gzip"], skeleton=case["skeleton"], quiet=True)
-            old_stdin = sys.stdin
-            if case["kind"] == "db":
-                src = os.path.join(work, "src")
-                plant(src, case["src"])
-                where = case.get("where")
-                if where:
-                    where = where["text"] if "text" in where else cond_text(where["cond"])
-                kw.update(source=src, where=where, full=case["full"])
-            elif case["kind"] == "refresh":
-                if case.get("dst") is None:
-                    os.makedirs(dst)
-                kw.update(refresh=True)
-            else:
-                text = "\n".join(uncps(l) for l in case["lines"])
-                if case["lines"] and (case["trailing_nl"] or not case["lines"][-1]):
-                    text += "\n"      # (a final empty line exists only if it is terminated)
-                kw.update(delimiter=None if case["delim"] is None else uncps(case["delim"]))
-                if case["stdin"]:
-                    sys.stdin = io.StringIO(text)
-                else:
-                    sp = os.path.join(work, "sents.txt")
-                    with open(sp, "w", encoding="utf-8", newline="\n") as f:
-                        f.write(text)
-                    kw.update(source=sp)
-            res = "ok"
-            try:
-                with warnings.catch_warnings():
-                    warnings.simplefilter("ignore")
-                    commands.mkprof(dst, **kw)
-            except Exception as e:        # mapped to a small enum; anything else is a harness crash
-                nm = type(e).__name__
-                if nm not in ERRS:
-                    raise
-                res = "TSDBError" if nm == "TSDBSchemaError" else nm
-            finally:
-                sys.stdin = old_stdin
-            out = observe(dst, watch_names(case), res)
-            if case["kind"] == "db" and kw.get("where") and case["src"].get("schema") is not None:
-                # does the real query of mkprof answer, or does it take the TSQLError fallback?  (observation
-                # for the oracle only; not part of the model comparison)
-                sel = {}
-                target = target_of(case)
-                files = dir_files(case["src"])
-                for rel in target:
-                    t = rel["name"]
-                    if t not in to_copy(case, target) or t not in dir_schema(case["src"]) or \
-                            t not in files or n_current(files[t]) is None:
-                        continue
-                    try:
-                        with warnings.catch_warnings():
-                            warnings.simplefilter("ignore")
-                            list(tsql.select("* from %s where %s" % (t, kw["where"]), tsdb.Database(src)))
-                        sel[t] = "ok"
-                    except Exception as e:
-                        sel[t] = type(e).__name__
-                out["select"] = sel
-            return out
+            if case["kind"] == "history":
+                # several mkprof calls on ONE destination (and one source profile), in one process
+                watch = watch_names(case)
+                return {"res": "history",
+                        "steps": [self._call(st, work, dst, watch, k) for k, st in enumerate(step_cases(case))]}
+            return self._call(case, work, dst, watch_names(case), 0)
         finally:
             shutil.rmtree(work, ignore_errors=True)
 
+    def _call(self, case, work, dst, watch, k):
+        """one call of the real mkprof on the destination as it is now; the observation afterwards"""
+        schema_arg = None
+        if case.get("schema") is not None:
+            schema_arg = os.path.join(work, "alt-relations-%d" % k)
+            with open(schema_arg, "w", encoding="utf-8") as f:
+                f.write(n_schema_text(case["schema"]))
+        kw = dict(schema=schema_arg, gzip=case["gzip"], skeleton=case["skeleton"], quiet=case.get("quiet", True))
+        old_stdin = sys.stdin
+        src = os.path.join(work, "src")
+        if case["kind"] == "db":
+            if not os.path.isdir(src):
+                plant(src, case["src"])
+            where = case.get("where")
+            if where:
+                where = where["text"] if "text" in where else cond_text(where["cond"])
+            kw.update(source=src, where=where, full=case["full"])
+        elif case["kind"] == "refresh":
+            os.makedirs(dst, exist_ok=True)
+            kw.update(refresh=True)
+        else:
+            text = raw_text(case)
+            kw.update(delimiter=None if case["delim"] is None else uncps(case["delim"]))
+            if case.get("nosource"):
+                kw.update(source=os.path.join(work, "no-such-file-%d" % k))      # neither a file nor a directory
+            elif case["stdin"]:
+                sys.stdin = io.StringIO(text)
+            else:
+                sp = os.path.join(work, "sents-%d.txt" % k)
+                with open(sp, "wb") as f:
+                    f.write(text.encode("utf-8"))
+                kw.update(source=sp)
+        res = "ok"
+        try:
+            with warnings.catch_warnings(), contextlib.redirect_stdout(io.StringIO()):
+                warnings.simplefilter("ignore")
+                commands.mkprof(dst, **kw)      # (quiet=False prints the summary of the files written)
+        except Exception as e:        # mapped to a small enum; anything else is a harness crash
+            nm = type(e).__name__
+            if nm not in ERRS:
+                raise
+            res = "TSDBError" if nm == "TSDBSchemaError" else nm
+        finally:
+            sys.stdin = old_stdin
+        out = observe(dst, watch, res)
+        if case["kind"] == "db" and kw.get("where") and case["src"].get("schema") is not None:
+            # does the real query of mkprof answer, or does it take the TSQLError fallback?  (observation
+            # for the oracle only; not part of the model comparison)
+            sel = {}
+            target = target_of(case)
+            files = dir_files(case["src"])
+            for rel in target:
+                t = rel["name"]
+                if t not in to_copy(case, target) or t not in dir_schema(case["src"]) or \
+                        t not in files or n_current(files[t]) is None:
+                    continue
+                try:
+                    with warnings.catch_warnings():
+                        warnings.simplefilter("ignore")
+                        list(tsql.select("* from %s where %s" % (t, kw["where"]), tsdb.Database(src)))
+                    sel[t] = "ok"
+                except Exception as e:
+                    sel[t] = type(e).__name__
+            out["select"] = sel
+        return out
+
     # ---- model
     def model_request(self, case):
-        req = {"op": case["kind"], "watch": watch_names(case), "dst": case.get("dst"),
-               "schema": case.get("schema"), "gzip": case["gzip"], "skeleton": case["skeleton"]}
+        if case["kind"] == "history":
+            # answered by the composed model only (the driver threads the directory through the calls)
+            steps = [self._step_request(st) for st in step_cases(case)]
+            if any(st is None for st in steps):
+                return None
+            return {"op": "history", "watch": watch_names(case), "dst": case.get("dst"), "src": case.get("src"),
+                    "composed": True, "steps": steps}
+        req = self._step_request(case)
+        if req is None:
+            return None
+        req["watch"] = watch_names(case)
+        req["dst"] = case.get("dst")
+        return req
+
+    def _step_request(self, case):
+        if case.get("nosource"):
+            return None          # the dispatch on the kind of source is not modelled: oracle only
+        req = {"op": case["kind"], "schema": case.get("schema"), "gzip": case["gzip"], "skeleton": case["skeleton"]}
         # the composed model (C11 select + C09 files) answers db and refresh cases; the `sel` parameter below
         # is only used by the driver's fallback when a case is outside what C08/C09/C11 model
         where = case.get("where")
-        req["composed"] = case["kind"] in ("db", "refresh") and not (where and "text" in where) and not (
-            where and "cond" in where and not cond_composable(where["cond"]))
+        req["composed"] = case["kind"] == "lines" or (not (where and "text" in where) and not (
+            where and "cond" in where and not cond_composable(where["cond"])))
         if case["kind"] == "db" and where and "cond" in where and req["composed"]:
             req["cond"] = cond_json(where["cond"])
             req["rx"] = rx_table(case)
@@ -1225,11 +1474,18 @@ class C12(Check):
                     return None
                 req["sel"] = [{"name": t, "filt": v} for t, v in fp.items()]
         elif case["kind"] == "lines":
+            # the composed model gets the CHARACTERS of the stream and how it is opened; the line list is only
+            # for the round-1 model (fallback, never taken for schemas whose relations have fields)
+            raw = raw_text(case)
             req["delim"] = case["delim"]
-            req["lines"] = case["lines"]
+            req["raw"] = cps(raw)
+            req["stream"] = "asis" if case["stdin"] else "file"
+            req["lines"] = [cps(l) for l in n_stream_lines(raw, not case["stdin"])]
         return req
 
     def model_expected(self, case, impl_res):
+        if isinstance(impl_res, dict) and "steps" in impl_res:
+            return dict(impl_res, steps=[{k: v for k, v in st.items() if k != "select"} for st in impl_res["steps"]])
         if isinstance(impl_res, dict) and "select" in impl_res:
             impl_res = {k: v for k, v in impl_res.items() if k != "select"}
         return impl_res
@@ -1238,7 +1494,7 @@ class C12(Check):
         if isinstance(answer, dict):
             answer = dict(answer)
             path = answer.pop("path", "param")
-            if case["kind"] == "lines":
+            if case["kind"] == "lines" and path == "param":
                 path = "round-1 model (no parameter; not composed with C09)"
             elif path == "param":
                 path = "round-1 model with the evaluator's answers as parameter"
@@ -1259,12 +1515,37 @@ class C12(Check):
 
         def fail(clause, detail):
             fails.append({"clause": clause, "detail": detail})
+        if case["kind"] == "history":
+            self._oracle_history(case, res, fail)
+            return fails
         got = {r["name"]: r for r in res["rels"]}
         if case["kind"] in ("db", "refresh"):
             self._oracle_copy(case, res, got, fail)
         else:
             self._oracle_lines(case, res, got, fail)
         return fails
+
+    def _oracle_history(self, case, res, fail):
+        """every call of a history is judged like a single call, its input directory being what was OBSERVED after
+        the previous call (so the first wrong call is the one reported); judging stops after a call that raised"""
+        planted = dir_files(case.get("dst"))
+        schema_now = case["dst"].get("schema") if case.get("dst") else None
+        prev = None
+        for k, (st, obs) in enumerate(zip(step_cases(case), res["steps"])):
+            d = case.get("dst") if k == 0 else synth_dir(prev, schema_now, planted)
+            sc = dict(st, dst=d)
+            got = {r["name"]: r for r in obs["rels"]}
+
+            def f2(clause, detail, k=k):
+                fail(clause, "step %d: %s" % (k, detail))
+            if sc["kind"] in ("db", "refresh"):
+                self._oracle_copy(sc, obs, got, f2)
+            else:
+                self._oracle_lines(sc, obs, got, f2)
+            if obs["res"] != "ok":
+                break
+            schema_now = sc["schema"] if sc["kind"] == "lines" else target_of(sc)
+            prev = obs
 
     def _files_clause(self, case, res, got, target, expect_rows, old_names, fail):
         """files present: full/non-skeleton => every relation of the schema has exactly one file (compressed iff
@@ -1366,13 +1647,19 @@ class C12(Check):
         return any(all(a[i] == b[i] for a, b in zip(have, expect)) for i in range(w))
 
     def _oracle_lines(self, case, res, got, fail):
+        if case.get("nosource"):
+            if res["res"] != "CommandError":
+                fail("a source that is neither a file nor a directory is not rejected", repr(res["res"]))
+            if case.get("dst") is None and (res["schema"] is not None or any(g["tx"] or g["gz"] for g in got.values())):
+                fail("a rejected call leaves files in the destination", repr(res["schema"]))
+            return
         schema = case["schema"]
         if not schema:
             if res["res"] == "ok":
                 fail("text input without a schema is accepted", "")
             return
         fields = dir_schema({"schema": schema}).get("item")
-        lines = [uncps(l) for l in case["lines"]]
+        lines = n_stream_lines(raw_text(case), not case["stdin"])
         delim = None if case["delim"] is None else uncps(case["delim"])
         if fields is None:
             if res["res"] == "ok":
@@ -1469,6 +1756,11 @@ class C12(Check):
     def classify(self, case, failure):
         """F20: a filter is given, the query for the relation succeeded, and the selected (kept) source rows of that
         relation contain two identical rows next to each other — `_tsql_distinct` merges them."""
+        if case.get("kind") == "history":
+            m = re.match(r"step (\d+): (.*)$", str(failure.get("detail", "")), re.S)
+            if not m or int(m.group(1)) >= len(case["steps"]):
+                return None
+            return self.classify(step_cases(case)[int(m.group(1))], dict(failure, detail=m.group(2)))
         if case.get("kind") != "db" or not case.get("where") or "cond" not in case["where"]:
             return None
         if not str(failure.get("clause", "")).startswith(
@@ -1500,6 +1792,8 @@ class C12(Check):
 
     # ---- evidence
     def nontrivial_key(self, case, res):
+        if case["kind"] == "history":
+            return json.dumps(case, sort_keys=True)
         if case["kind"] == "lines":
             if not case["lines"]:
                 return None
@@ -1514,8 +1808,30 @@ class C12(Check):
             c[k] = c.get(k, 0) + 1
         k = case["kind"]
         inc("kind:" + k)
+        if k == "history":
+            inc("history:calls %d" % len(case["steps"]))
+            for a, b in zip(case["steps"], case["steps"][1:]):
+                inc("history:%s then %s" % (a["kind"], b["kind"]))
+            if any(st.get("quiet") is False for st in case["steps"]):
+                inc("history:a call with quiet=False")
+            outs = [o.get("res") for o in (res or {}).get("steps", [])]
+            if any(o != "ok" for o in outs[:-1]):
+                inc("history:a call after one that raised")
+            for a, b in zip(case["steps"], case["steps"][1:]):
+                if (a.get("schema") is not None or b.get("schema") is not None) and a.get("schema") != b.get("schema"):
+                    inc("history:schema changes between calls")
+                    break
+            if any(a["gzip"] != b["gzip"] for a, b in zip(case["steps"], case["steps"][1:])):
+                inc("history:gzip changes between calls")
+            for o in outs:
+                inc("history:call res:" + str(o))
+            return
         if res is not None:
             inc("res:" + str(res.get("res")))
+        if case.get("quiet") is False:
+            inc(k + ":quiet=False (summary printed)")
+        if case.get("nosource"):
+            inc("lines:source is neither file nor directory (oracle only)")
         inc("gzip:%s skeleton:%s" % (case["gzip"], case["skeleton"]))
         if case.get("schema") is not None:
             inc(k + ":schema given")
@@ -1553,8 +1869,19 @@ class C12(Check):
             d = case["delim"]
             inc("lines:delim " + ("none" if not d else repr(uncps(d))))
             inc("lines:n %d" % min(len(case["lines"]), 7))
-            if case["stdin"]:
-                inc("lines:stdin")
+            inc("lines:stdin" if case["stdin"] else "lines:file")
+            inc("lines:stdin=%s gzip=%s skeleton=%s" % (case["stdin"], case["gzip"], case["skeleton"]))
+            raw = raw_text(case)
+            if "\r\n" in raw:
+                inc("lines:text has CRLF")
+            if re.search("\r(?!\n)", raw):
+                inc("lines:text has a lone CR")
+            if raw and not raw.endswith(("\n", "\r")):
+                inc("lines:no final line terminator")
+            if re.search("[\x0b\x0c\x1c-\x1e\x85\u2028\u2029\x00]", raw):
+                inc("lines:other line-boundary character inside a line")
+            if len(n_stream_lines(raw, not case["stdin"])) != len(case["lines"]):
+                inc("lines:a CR inside a line cuts it (file)")
         elif k == "refresh":
             if case["dst"] and any(f.get("tx") and f.get("gz") for f in case["dst"]["files"]):
                 inc("refresh:both forms present")
@@ -1563,6 +1890,14 @@ class C12(Check):
         """drop relations' rows / lines while the failure class is unchanged"""
         cur = json.loads(json.dumps(case))
         progress = True
+        if cur["kind"] == "history":
+            # drop calls from the end, then from the front, while the failure class is unchanged
+            while len(cur["steps"]) > 1:
+                c2 = dict(cur, steps=cur["steps"][:-1])
+                if not still_fails(c2):
+                    break
+                cur = c2
+            return cur
         while progress:
             progress = False
             if cur["kind"] == "lines":
